@@ -177,6 +177,14 @@ theorem only_exceptions (P : Problem) (s0 : State) (e : Err) (hlen : s0.length =
     | typeError => exact absurd hte (stepOnce_no_typeError P t)
     | indexError => exact absurd hte (stepOnce_no_indexError ht)
 
+/-- the iteration guard (`_maximum_iteration_count`, the fuel of the model) is sufficient whenever the
+    slots fill up first: with `state_length * maximum_step ≤ maximum_iteration_count` (union squad 47·1,
+    link skills 27·1, union occupation 5·40, against 999) `MaximumOptimizationStepExceed` is never raised -/
+theorem guard_not_hit (P : Problem) (s0 : State) (hlim : ∀ x ∈ s0, x ≤ P.maxStep)
+    (hroom : s0.length * P.maxStep ≤ P.maxIter + s0.sum) :
+    optimize P s0 ≠ .error .maximumOptimizationStepExceed :=
+  optimizeLoop_guard P.maxIter s0 hlim hroom
+
 /-! ### `clone()` of the four targets -/
 
 /-- **clone preserves the objective**: for a target built by its constructor and then given any state,
@@ -306,6 +314,22 @@ theorem weapon_best_of_dominated {α : Type} (W : WeaponProblem α) (hdom : Domi
     obtain ⟨w'', s'', e'', a, b, c, hle⟩ := hdom w' s' e' hw' hs' he'
     exact le_trans hle (h2 hb w'' s'' e'' a b c)
 
+/-- `Dominated` follows from two local facts about the lines: (1) every tier list offers a useful line
+    that is neither a boss nor an ignore-defence line (the attack% / flat attack line of the logic's
+    attack type), and (2) the reward does not drop when, line by line, useless lines are replaced by such
+    lines of the same tier (`useless_stays_useless` + monotonicity of the damage factor) -/
+theorem dominated_of_local_replacement {α : Type} (W : WeaponProblem α)
+    (hplain : ∀ l ∈ W.tiers, ∃ p ∈ l, W.useful p = true ∧ W.isBoss p = false ∧ W.isIed p = false)
+    (hmono : ∀ w w' s s' e e', RepairsAll W w w' W.tiers → RepairsAll W s s' W.tiers →
+      RepairsAll W e e' W.tiers → W.reward w s e ≤ W.reward w' s' e') :
+    Dominated W := by
+  intro w s e hw hs he
+  obtain ⟨w', hw'⟩ := exists_repair W W.tiers w hw.1 hplain
+  obtain ⟨s', hs'⟩ := exists_repair W W.tiers s hs.1 hplain
+  obtain ⟨e', he'⟩ := exists_repair W W.tiers e he.1 hplain
+  exact ⟨w', s', e', legal_repair W false w w' hw' hw, legal_repair W false s s' hs' hs,
+    legal_repair W true e e' he' he, hmono w w' s s' e e' hw' hs' he'⟩
+
 /-! ### non-vacuity: concrete instances -/
 
 /-- a two-slot target, budget 3: the greedy takes slot 1 (gain 3/cost 1), then slot 0 twice … -/
@@ -331,5 +355,8 @@ def demoWeapon : WeaponProblem Nat :=
 example : demoWeapon.getFullOptimalPotential = some ([3, 3, 0], [3, 3, 0], [0, 0, 0]) := by decide +kernel
 example : LegalPruned demoWeapon false [3, 3, 0] := by
   refine ⟨by simp [Picks, demoWeapon], by decide, by decide⟩
+/-- the hypothesis (1) of `dominated_of_local_replacement` holds for the demo: line 0 is useful and plain -/
+example : ∀ l ∈ demoWeapon.tiers, ∃ p ∈ l, demoWeapon.useful p = true ∧ demoWeapon.isBoss p = false ∧
+    demoWeapon.isIed p = false := by decide
 
 end Simaple.Props.C19
